@@ -192,6 +192,21 @@ def s_fx_saturating_to_num(ex, st, args, m):
     return [(st, Int("(ite (< %s %s) %s (ite (> %s %s) %s %s))" % (q, lit(lo), lit(lo), q, lit(hi), lit(hi), q), sg, bits), None)]
 
 
+def s_int_widen(ex, st, args, m):
+    """lossless integer widening through From / Into: the value is unchanged (std only implements
+    these impls where every source value fits the target)"""
+    src, tgt = (m.group(1), m.group(2)) if m.group(0).endswith("into") else (m.group(2), m.group(1))
+    a = ex.deref(st, args[0])
+    s_, t_ = parse_int(src), parse_int(tgt)
+    if not s_ or not t_:
+        raise Unsupported("integer From/Into %s -> %s" % (src, tgt))
+    lo, hi = rng(*s_)
+    tlo, thi = rng(*t_)
+    if lo < tlo or hi > thi:
+        raise Unsupported("integer From/Into %s -> %s is not a widening" % (src, tgt))
+    return [(st, Int(a.term, t_[0], t_[1]), None)]
+
+
 def s_lossy_into(ex, st, args, m):
     a = ex.deref(st, args[0])
     tgt = m.group(1)
@@ -304,6 +319,8 @@ SUMMARIES = [
     (r"^" + FXT + r"::to_num::<(\w+)>$", s_fx_to_num),
     (r"^" + FXT + r"::saturating_to_num::<(\w+)>$", s_fx_saturating_to_num),
     (r"^<" + FXT + r" as LossyInto<(.*)>>::lossy_into$", s_lossy_into),
+    (r"^<([iu]\d+|[iu]size) as Into<([iu]\d+|[iu]size)>>::into$", s_int_widen),
+    (r"^<([iu]\d+|[iu]size) as From<([iu]\d+|[iu]size)>>::from$", s_int_widen),
     (r"^<" + FXT + r" as LosslessTryInto<(" + FXT + r")>>::lossless_try_into$", s_lossless_try_into),
     (r"^core::option::Option::<.*>::unwrap$", s_option_unwrap),
     (r"^<C as Clock>::now$", s_clock_now),
